@@ -81,7 +81,9 @@ pub(crate) fn wire_range_deconvolution(
     range: (usize, usize),
 ) -> Vec<(usize, Vec<f64>)> {
     let (i, j) = problem_dimensions(wire_signals, range);
-    let mut a = a_matrix(j);
+    // If all wires have a signal, the block is the full ring: the first and
+    // last wires in the block are also neighbors of each other.
+    let mut a = a_matrix(j, j == TPC_ANODE_WIRES);
     let mut y = y_matrix(wire_signals, range);
     // I can remove the cross-talk between channels as:
     // Y * A^-1 = Y' = R * X
@@ -165,9 +167,10 @@ fn range_to_len(range: (usize, usize)) -> usize {
 // I just need to create all the matrices and solve for X.
 
 // Create the A matrix for a given size.
-fn a_matrix(n: usize) -> faer_core::Mat<f64> {
+fn a_matrix(n: usize, ring: bool) -> faer_core::Mat<f64> {
     faer_core::Mat::with_dims(n, n, |i, j| {
         let diff = if i > j { i - j } else { j - i };
+        let diff = if ring { diff.min(n - diff) } else { diff };
         NEIGHBOR_FACTORS.get(diff).copied().unwrap_or(0.0)
     })
 }
